@@ -24,6 +24,14 @@ CHECKS = {
    technique="pairwise configuration lattice (every single-factor variant and every run split) + exhaustive job-completion-order exploration, comparing truth state bytes per step",
    text="A base scenario (special-perturbations truth, scheduled impulse, station keeping, ground+space sensor) is compared with every single-factor variant (truth-only, filter tuning/resampling/dynamics, detector, reward, decision, sensor noise, FoV/masks, seed, output cadence, every two-call split and one call per step, agents added/removed, second engine) and with every completion order of every job batch: the truth eci_state bytes of every common agent after every step and the TruthEphemeris rows must be identical. Job memoisation is off in this check.",
    note="Ray modelled by verif/fakeray.py; same data files for both runs of a pair"),
+ "C14": dict(level="model_checking", design="§3 C14",
+   technique="bounded exhaustive lattice enumeration of geometries on the real predicates against an exact-rational / closed-form reference (verif/oracles/visgeom.py)",
+   text="On complete lattices (174k cases quick, 7.4M thorough) lineOfSight equals the exact rational segment-versus-sphere test and is symmetric; conic and rectangular FoV membership equals the angular-offset reference, is reflexive and invariant under rotation about the vertical including across the north seam; Sensor.isVisible returns the exact verdict and Explanation for plain, degenerate and north-wrapping azimuth masks, elevation masks, range limits and line of sight; the visible-Sun fraction lies in [0,1], is 1 sunward, 0 in the umbra, monotone across the penumbra and matches the conical-shadow reference to 1e-6; limb obscuration equals the tangent-cone test; lighting/galactic cones switch at their thresholds; az/el helpers have correct quadrants, seam and zenith rule.",
+   note="stated constants; flat-disc shadow model in the orbiting-satellite domain; inputs within the derived rounding band of a threshold are classified either-way; nothing is claimed between lattice points"),
+ "C19": dict(level="model_checking", design="§3 C19",
+   technique="exhaustive enumeration of importer-database histories and gap positions (every (agent, epoch) record removed, with 0/1/2 unrelated agents) on the real importer scenario",
+   text="A realtime source run writes a file DB; from it every importer DB of the family (exact set, +1/+2 unrelated agents, an agent absent, and one DB per (imported agent, epoch) with exactly that row removed, each also with +1/+2 unrelated agents) is derived and the real importer scenario (targets / sensors / both imported) is run against it: eci_state equals the DB row after every step, MissingEphemerisError is raised in exactly the step of the gap, stored observations of epoch t_k reach the estimate-update submission of their target at step k and no other (seen at the fake-ray seam), the importer file hash and logical dump are unchanged and the write API refuses.",
+   note="importer DBs are SQLite files produced by resonaate's own output of a realtime run with the same start and step; default job order"),
 }
 
 NOT_APPLICABLE = {}
